@@ -40,7 +40,7 @@ m = {"version": 1, "setup_cmd": "./setup.sh",
      "hooks": {"guard": "cargo feature verif-hooks (falcon-rust/Cargo.toml)",
                "enable": "harness/Cargo.toml depends on /repo/falcon-rust with features=[\"verif-hooks\"]; checks run `cargo build --release --offline` in /verif/harness",
                "baseline_off_cmd": "cd /repo && cargo test --workspace --no-fail-fast --offline",
-               "source_commits": ["4b3463d", "410373f"], "add_only": True},
+               "source_commits": ["4b3463d", "410373f", "a51a072"], "add_only": True},
      "engines": [{"name": "tlc", "path": "/verif/spec", "serves_properties": [c["property_id"] for c in checks],
                   "kind_free_text": "explicit TLA+ specification (spec/*.tla) checked with TLC: MC_* exhaustive small-constant configs, Gen_* TLC-generated cases replayed on the real code, Trace_* validation of traces recorded from the real code (harness/)"}],
      "checks": checks,
